@@ -8,7 +8,7 @@ python3 tools/gen_help.py || echo 'gen_help: not translatable, committed Help.le
 (cd harness && cargo build 2>&1 | tail -3)
 # /repo's own binary without hooks (start-up validation, -g, DIE: checks C20 and C11)
 mkdir -p work && (cd /repo && cargo build --offline --target-dir /verif/work/bin-target 2>&1 | tail -2)
-(cd lean && lake build ircmodel Irc 2>&1 | tail -3)
+(cd lean && lake build ircmodel Irc Irc.LoadTest 2>&1 | tail -3)
 # property modules (theorems) registered in vlib/props.py; built here once so that the checks only re-check what changed
 (cd lean && python3 -c "
 import sys; sys.path.insert(0, '/verif')
